@@ -16,6 +16,29 @@ CLAIMED = {
         "Trusted: Lean kernel; Python int arithmetic; sqlite's & / BETWEEN; the correspondence generator's reach.",
         "DESIGN.md section 5, C10",
     ),
+    "C01": (
+        "Lean 4 invariant proof over allocator histories (DbInv, getId_member) + differential correspondence of every step with the sqlite tables",
+        "Theorems in lean/Tup/Props/C01.lean: DbInv is preserved by every operation from the empty database (induction over histories) and every "
+        "id returned by getId on any path (hit, free, LRU recycle, sample, sample after clean-up) is a Spec.Layout member; the model is compared "
+        "with the real tables after every step of generated histories and Spec.member judges every id the real get_id/assign_id returns.",
+        "Trusted: Lean kernel; sqlite statement semantics; 'whatever the database contains' = whatever library operations produced.",
+        "DESIGN.md section 5, C01",
+    ),
+    "C02": (
+        "Lean 4 theorems over the allocator model (hit, binds, frame, no displacement, exactly-LRU, oldest-prefix clean-up, listing) + step-by-step differential correspondence",
+        "Theorems in lean/Tup/Props/C02.lean over every reachable database and admissible choice/tie-break; generated histories (all spaces, subspaces "
+        "forcing every path, ties on atime, max-ids values) run on the real IDManager with all six tables dumped and compared after every step; "
+        "Spec.AllocStep predicates judge the real before/after dumps.",
+        "Trusted: Lean kernel; sqlite semantics; executable AllocStep checkers vs their Prop meanings. getAll_merged (heap merge) only by correspondence.",
+        "DESIGN.md section 5, C02",
+    ),
+    "C04": (
+        "Lean 4 table-level soundness/completeness theorems for needs_uploading + ghost-log retention specification judged on generated histories",
+        "Theorems in lean/Tup/Props/C04.lean (needsUploading_sound_partial/_complete_partial at table level, markUploaded_records, tie_witness); the "
+        "ghost arrival log of Spec.Retention is maintained by the harness over histories with several terminals and judged against the real answers.",
+        "PARTIAL: the simulation between the upload table and the ghost log through histories is exercised, not proved; equal timestamps = known finding D16.",
+        "DESIGN.md section 5, C04",
+    ),
     "C05": (
         "Lean 4 theorems over a model of send/split + differential correspondence; spec parser/unwrapper/base64 decoder on the real stream",
         "Theorems in lean/Tup/Props/C05.lean (send_too_small, send_sizes, send_lossless, send_flags, send_keys, for every payload, header, "
